@@ -358,4 +358,6 @@ def run(ctx):
     ctx.assumptions = ["models Fold/FoldModel.v and Num/NumImpl.v are hand-written; tied to the code by this run's differential comparison",
                        "get / or / lists / parentheses are covered by the differential comparison only (get e = e, (e or v) = e for non-nil e, lists elementwise); the Coq theorem covers the ten folded binary operators, unary minus and `!`",
                        "a compile-time rejection corresponds to any run-time failure (error or panic) of the unfolded rendering"]
+    if ok and not ctx.quick():
+        nc.coqchk(ctx, ["MS.Props.C06"])
     core.proof_or_search(ctx, ok, ["C06_fold_agrees"], prop_fail > 0)
